@@ -170,7 +170,7 @@ func ruleRequestTuples(c *Ctx, rule string) {
 		rl := w.Func("turn", "Server", "readLoop")
 		c.Anchor(rule, "readListener teardown")
 		found := false
-		for _, f := range withAnon(rlis) {
+		for _, f := range w.helpersOf(rlis) {
 			w.eachInstr(f, func(in ssa.Instruction) {
 				call, ok := in.(*ssa.Call)
 				if !ok || call.Call.StaticCallee() != del {
